@@ -231,3 +231,32 @@ Example ex_sliver :
   ([zb lo lo hi hi], zb lo lo hi hi, [Some lo; Some lo; Some hi; Some hi],
    [([[0; 1]], [[1]], [1])]).
 Proof. vm_compute. reflexivity. Qed.
+
+(* ------------------------------------------------------------------ *)
+(* Binary64 (Model/PackFloat.v, Proofs/FloatBoundsCombine.v): total_bounds_concat for
+   float64 values.  DaskGeoSeries.total_bounds (np.nanmin / np.nanmax over partition_bounds,
+   each row the total bounds of one partition) against the total bounds of the concatenated
+   frame: per column bitwise equal, or both zeros (+0.0 and -0.0 compare equal; which one is
+   kept depends on the order in which the values are met), or both NaN.                  *)
+(* ------------------------------------------------------------------ *)
+From Coq Require Import PrimFloat SpecFloat FloatOps.
+From SP Require Import Model.FloatData2Coord Model.PackFloat Proofs.FloatBoundsCombine.
+
+Theorem C06_f_total_bounds_concat : forall parts : list (list frow),
+  frow_eq_mod_zero (f_dask_total_bounds parts) (f_total_bounds (concat parts)).
+Proof. exact f_total_bounds_partition_independent. Qed.
+Print Assumptions C06_f_total_bounds_concat.
+
+(* two Dask frames with the same rows in any order, split in any two ways *)
+Theorem C06_f_total_bounds_permutation : forall parts parts' : list (list frow),
+  Permutation (concat parts) (concat parts') ->
+  frow_eq_mod_zero (f_dask_total_bounds parts) (f_dask_total_bounds parts').
+Proof. exact f_dask_total_bounds_permutation_independent. Qed.
+Print Assumptions C06_f_total_bounds_permutation.
+
+(* non-vacuity: partitions [[a]; [b; c]] / [[b]; [a; c]] of the rows (+0.0, 1), (-0.0, 2),
+   (4, 8): x0 = +0.0 / -0.0; a partition of missing rows only and an empty one *)
+Example ex_f_total_bounds_zero_sign : ex_f_zero_sign_depends_on_order_stmt.
+Proof. exact ex_f_zero_sign_depends_on_order_holds. Qed.
+Example ex_f_total_bounds_all_nan_partition : ex_f_all_nan_partition_stmt.
+Proof. exact ex_f_all_nan_partition_holds. Qed.
